@@ -12,9 +12,15 @@ def lp_on(tier, rng):
 def split_lp(model_line):
     from ..core import default_split
     m, s, cls = default_split(model_line)
-    return None, s, cls or "lp_root"   # the LP step is not modelled: no correspondence for this family, oracle only
+    return None, s, cls           # the LP step is not modelled: no correspondence for this family, oracle only
+def classify_lp(case, impl, cls):
+    # attribution: a failure is put down to finding D10 only when the root LP step actually ran (hook H5 flag)
+    return cls or ("lp_root" if impl.endswith(" lp=1") else None)
+def judge_lp(case, impl, spec):
+    return plevel.judge_solve(case, impl[:-5] if impl.endswith(" lp=1") else impl, spec)
 FAMILIES = [
     Family("opt_random", "solve", ec.gen_models(ec.entry_opt, 3000, 80000), nontrivial=ec.nontrivial_solve, prop_judge=plevel.judge_solve),
     Family("opt_structured", "solve", lambda tier, rng: [c for c in ec.structured(tier, rng) if " max " in c or " min " in c], nontrivial=ec.nontrivial_solve, prop_judge=plevel.judge_solve),
-    Family("opt_lp_on", "solve", lp_on, split=split_lp, nontrivial=ec.nontrivial_solve, prop_judge=plevel.judge_solve),
+    Family("opt_lp_on", "solve", lp_on, split=split_lp, nontrivial=ec.nontrivial_solve, prop_judge=judge_lp),
 ]
+FAMILIES[-1].classify = classify_lp
